@@ -238,6 +238,19 @@ func runC10(c *core.Ctx) {
 			c.Call("layout(constructed)", enc, func() { check("keys_and_cert.NewKeysAndCert", ck) })
 			c.Bucket("layout-constructed")
 		}
+		// the fixed-layout readers: whatever they return without error obeys the same layout
+		for _, fr := range []struct {
+			site string
+			fn   func([]byte) (*keys_and_cert.KeysAndCert, []byte, error)
+		}{{"keys_and_cert.ReadKeysAndCertElgAndEd25519", keys_and_cert.ReadKeysAndCertElgAndEd25519}, {"keys_and_cert.ReadKeysAndCertX25519AndEd25519", keys_and_cert.ReadKeysAndCertX25519AndEd25519}} {
+			var fk *keys_and_cert.KeysAndCert
+			var ferr error
+			if p, _, _ := c.Call(fr.site, enc, func() { fk, _, ferr = fr.fn(enc) }); p || ferr != nil || fk == nil || fk.KeyCertificate == nil {
+				continue
+			}
+			c.Call("layout(fixed-layout reader)", enc, func() { check(fr.site, fk) })
+			c.Bucket("layout-fixed-reader/" + fr.site)
+		}
 		c.Sample(gen.Shape{"sig": sig, "crypto": cr, "cert": sh["cert"], "crypto_key_len": cpk, "signing_key_len": spk, "padding_len": 384 - cpk - spk})
 	})
 }
